@@ -10,7 +10,10 @@ def run(tier, replay=None):
     names, mism, _, _ = C.emit_and_replay(run, "MC_ConfigBuild", "MC_ConfigBuild_names.cfg", "c13_names",
                                           ["cfgbuild"], timeout=300, workers=4)
     for m in mism:
-        run.mismatch({"kind": "name", "name": m["input"]["name"]}, m)
+        if "name" in m["input"]:
+            run.mismatch({"kind": "name", "name": m["input"]["name"]}, m)
+        else:   # (the scale scenario runs with every replay)
+            run.mismatch({"kind": "build", "what": m["mismatch"].get("what")}, m)
     cfg = "MC_ConfigBuild_quick.cfg" if tier == "quick" else "MC_ConfigBuild_thorough.cfg"
     cases, mism, _, _ = C.emit_and_replay(run, "MC_ConfigBuild", cfg, "c13_" + tier, ["cfgbuild"],
                                           timeout=2400, workers=8)
